@@ -449,6 +449,33 @@ pub fn check_main(tier: Tier) -> i32 {
         miri_violation = viol;
     }
 
+    // --- deep-counter leg (thorough tier): 2^32 setter calls ------------------------
+    // "regardless of how many times the option setters were called": a 32-bit revision or call
+    // counter wraps only after 4 294 967 296 calls, which no random history contains. Three fixed
+    // episodes (QR builder, SVG renderer, image renderer) call one scalar setter exactly 2^32
+    // times between two uses of the object and compare with a fresh object holding the final
+    // values. They go through the same fresh-process execution as a replay.
+    let mut deep = json!({"ran": false, "reason": "quick tier"});
+    if tier == Tier::Thorough && std::env::var("VERIF_NO_DEEP").is_err() {
+        let td = Instant::now();
+        let eps = deep_counter_episodes(seed);
+        let mut hits = 0;
+        for ep in &eps {
+            match exec_fresh(&[ep.clone()], &pristine_path) {
+                Ok(ExecOut { violation: Some(v), .. }) => {
+                    hits += 1;
+                    found.push(json!({"violation": v, "episode": ep, "worker_start": ep.index, "worker_stride": 1, "variant": "plain"}));
+                }
+                Ok(_) => {}
+                Err(e) => {
+                    eprintln!("harness error: deep-counter episode failed to run: {}", e);
+                    return cleanup(2);
+                }
+            }
+        }
+        deep = json!({"ran": true, "episodes": eps.len(), "setter_calls_each": 1u64 << 32, "violations": hits, "wall_s": td.elapsed().as_secs_f64()});
+    }
+
     // --- violations -----------------------------------------------------------
     let known = KnownFindings::load();
     let mut new_violations = 0u64;
@@ -648,6 +675,7 @@ pub fn check_main(tier: Tier) -> i32 {
         "known_findings_seen": known_hits,
         "combined_run_hash": format!("{:016x}", combined),
         "miri_leg": miri,
+        "deep_counter_leg": deep,
         "stopped_by_time_cap": ws.stopped_by_time_cap,
         "process_images": {"cold_starts": ws.process_starts, "note": "each worker re-executes itself between segments of 1..300 episodes, so per-process state of the tree under test starts cold that many times"},
         "harness_variants": variants.iter().map(|(n, _)| n.clone()).collect::<Vec<_>>(),
@@ -700,6 +728,72 @@ pub fn check_main(tier: Tier) -> i32 {
         return cleanup(2);
     }
     cleanup(if new_violations > 0 { 1 } else { 0 })
+}
+
+/// See the deep-counter leg in `check_main`.
+fn deep_counter_episodes(seed: u64) -> Vec<Episode> {
+    use super::sched::{Policy, SchedSpec};
+    use super::{Op, OpSpec, QrRef};
+    let plain = |op: Op| OpSpec { op, crash_at: None, crash_site: None, cb_panic_at: None };
+    let n: u64 = 1 << 32;
+    let mk = |k: u64, ops: Vec<Op>| Episode {
+        index: 3_000_000_000 + k,
+        seed: crate::rng::mix(seed, 3_000_000_000 + k),
+        class: "deep_counter".into(),
+        sched: SchedSpec { policy: Policy::Sequential, seed: 1 },
+        inputs: vec![b"https://example.com/deep".to_vec()],
+        shared_builders: vec![],
+        shared_qrs: vec![],
+        tasks: vec![ops.into_iter().map(plain).collect()],
+    };
+    let fresh_qr = Op::BuildFresh { input: 0, mode: None, ecl: Some(1), version: None, mask: None, out: 0 };
+    vec![
+        // QR builder: mask set 2^32 times; final value (2^32-1) % 8 = 7
+        mk(
+            0,
+            vec![
+                Op::NewBuilder { slot: 0, input: 0 },
+                Op::Set { slot: 0, s: BSetter::Mask(2) },
+                Op::Build { slot: 0, out: 0 },
+                Op::SetBurst { what: 0, slot: 0, n },
+                Op::Build { slot: 0, out: 1 },
+                Op::BuildFresh { input: 0, mode: None, ecl: None, version: None, mask: Some(7), out: 2 },
+            ],
+        ),
+        // SVG renderer: margin set 2^32 times; final value (2^32-1) % 5 = 0
+        mk(
+            1,
+            vec![
+                fresh_qr.clone(),
+                Op::NewSvg { slot: 0 },
+                Op::SvgSet { slot: 0, s: RSetter::Margin(2) },
+                Op::SvgRender { slot: 0, qr: QrRef::Local(0) },
+                Op::SetBurst { what: 1, slot: 0, n },
+                Op::SvgRender { slot: 0, qr: QrRef::Local(0) },
+                Op::NewSvg { slot: 1 },
+                Op::SvgSet { slot: 1, s: RSetter::Margin(0) },
+                Op::SvgRender { slot: 1, qr: QrRef::Local(0) },
+            ],
+        ),
+        // image renderer, PNG bytes and pixmap
+        mk(
+            2,
+            vec![
+                fresh_qr,
+                Op::NewImg { slot: 0 },
+                Op::ImgSet { slot: 0, s: RSetter::Margin(2) },
+                Op::ImgRender { slot: 0, qr: QrRef::Local(0), pixmap: false },
+                Op::ImgRender { slot: 0, qr: QrRef::Local(0), pixmap: true },
+                Op::SetBurst { what: 2, slot: 0, n },
+                Op::ImgRender { slot: 0, qr: QrRef::Local(0), pixmap: false },
+                Op::ImgRender { slot: 0, qr: QrRef::Local(0), pixmap: true },
+                Op::NewImg { slot: 1 },
+                Op::ImgSet { slot: 1, s: RSetter::Margin(0) },
+                Op::ImgRender { slot: 1, qr: QrRef::Local(0), pixmap: false },
+                Op::ImgRender { slot: 1, qr: QrRef::Local(0), pixmap: true },
+            ],
+        ),
+    ]
 }
 
 pub const EXPECTED_SITES: &[&str] = &[
